@@ -311,8 +311,9 @@ def run_preexisting(chk, fe, prefix, principal, seq):
     impl = None
     try:
         P = posixpath.normpath(principal)
-        os.makedirs(data + P + "/calendars")
-        os.makedirs(data + P + "/contacts")
+        # an earlier start with --autocreate made the principal and its home sets (repositories)
+        first = HttpImpl(fe, prefix, Tokens(), root, principal=principal, defaults=False, autocreate=True)
+        first.close()
         cal = BareGitStore.create(data + P + "/calendars/calendar")
         cal.load_extra_file_handler(ICalendarFile)
         cal.set_type("calendar")
